@@ -21,7 +21,7 @@
  *               the driver has started)
  *        early: tickit_term_build() without output; tickit_term_set_output_buffer(n); then the output method
  *               is attached, so the driver's start-up bytes pass through the buffer
- *   write <hex> <len>      tickit_term_printn(tt, mem, len)   mem = bytes + NUL; len <= number of bytes
+ *   write <hex> <len>      tickit_term_printn(tt, mem, len)   mem = bytes + NUL; len <= number of bytes (len 0 prints nothing)
  *   print <hex>            tickit_term_print(tt, mem)
  *   printf <hex> <d>       tickit_term_printf(tt, "%s|%d", mem, d)
  *   title <hex>            tickit_term_setctl_str(tt, TICKIT_TERMCTL_TITLE_TEXT, mem)     (write_vstrf path)
